@@ -403,11 +403,15 @@ class Interp:
             t = self.prog.ty(tid)
             d = t.get("def", "(tuple)") if t.get("k") == "adt" else "(tuple)"
             fields = []
-            for f in v["fields"]:
-                fields.append(self.const_value(f, tid) if ("int" in f or "variant" in f or f.get("zst")) else TOP)
+            ftys = v.get("tys") or [tid] * len(v["fields"])
+            for f, ft in zip(v["fields"], ftys):
+                fields.append(self.const_value(f, ft) if ("int" in f or "variant" in f or f.get("zst") or "rawint" in f) else TOP)
             return adt(d, v["variant"] if v["variant"] is not None else 0, fields)
         if "static" in v:
             return ("sym", "static:" + v["static"])
+        if "rawint" in v:
+            # a scalar-represented newtype the compiler would not take apart (NonZero's inner): its bits
+            return I(v["rawint"])
         return TOP
 
     def promoted(self, st, fr, idx):
@@ -638,7 +642,9 @@ class Interp:
         if (b, a) in st.cons:
             key = (b, a)
             flip = True
-        cur = st.cons.get(key, frozenset("<=>"))
+        cur = st.cons.get(key)
+        if cur is None:
+            cur = frozenset("<=>") & _lattice_fact(key[0], key[1])
         sat = {"Eq": "=", "Ne": "<>", "Lt": "<", "Le": "<=", "Gt": ">", "Ge": ">="}[op]
         if flip:
             sat = sat.translate(str.maketrans("<>", "><"))
@@ -1110,6 +1116,19 @@ class Interp:
         return self.explore(st)
 
 
+def _lattice_fact(a, b):
+    """Orderings of (a, b) that the lattice meaning of max / min leaves possible: max(x, c) >= c and min(x, c) <= c
+    for a constant c (a float constant is not NaN, and f64::max / min return the other operand for a NaN one)."""
+    def is_const(v):
+        return isinstance(v, tuple) and v and v[0] in ("f", "i")
+    ok = frozenset("<=>")
+    if isinstance(a, tuple) and a and a[0] == "app" and a[1] in ("max", "min") and is_const(b) and b in a[2]:
+        ok &= frozenset(">=") if a[1] == "max" else frozenset("<=")
+    if isinstance(b, tuple) and b and b[0] == "app" and b[1] in ("max", "min") and is_const(a) and a in b[2]:
+        ok &= frozenset("<=") if b[1] == "max" else frozenset(">=")
+    return ok
+
+
 def closure_def(v):
     """def path of a closure value ('adt', 'closure:<def>\0<instance key>', 0, upvars)."""
     return str(v[1])[len("closure:"):].split("\0")[0]
@@ -1317,7 +1336,29 @@ def p_guard_deref(ip, st, args, info):
     return NotImplemented
 
 
+def p_array_into_iter(ip, st, args, info):
+    """`for x in [a, b, c]`: by-value iteration over an array aggregate of known elements."""
+    v = args[0]
+    if v[0] == "vec":
+        return _ret(st, ("arrit", v[1], 0))
+    return NotImplemented
+
+
+def p_array_iter_next(ip, st, args, info):
+    r = args[0]
+    if r[0] == "ref" and r[1] in st.mem:
+        it = ip.read(st, r[1], r[2])
+        if it[0] == "arrit":
+            if it[2] < len(it[1]):
+                ip.write(st, r[1], r[2], ("arrit", it[1], it[2] + 1))
+                return _ret(st, adt("core::option::Option", 1, (it[1][it[2]],)))
+            return _ret(st, adt("core::option::Option", 0, ()))
+    return NotImplemented
+
+
 BASE_PRIMS = {
+    "core::array::iter::<impl core::iter::traits::collect::IntoIterator for [T; N]>::into_iter": p_array_into_iter,
+    "<core::array::iter::IntoIter as core::iter::traits::iterator::Iterator>::next": p_array_iter_next,
     "core::cell::RefCell::new": p_identity,
     "core::cell::RefCell::into_inner": p_identity,
     "core::cell::RefCell::borrow": p_refcell_borrow,
